@@ -87,6 +87,9 @@ def find_role(proj: Project, cls, name: str):
     cands = [g for n_, g in cls.module.functions.items() if n_.lstrip("_") == stem]
     if len(cands) == 1:
         return cands[0]
+    f = proj._recover_anchor(cls, name)
+    if f is not None:
+        return f
     raise AnalysisError(f"anchor routine {cls.qualname}.{name} not found (neither as a method nor as a function of "
                         f"{cls.module.name})")
 
@@ -117,6 +120,8 @@ class StepSim:
             funcs["Ranking." + m] = hook
             funcs["Ranking._Ranking" + m] = hook
             funcs[self.fn[m].name] = hook                   # module-level form
+            funcs["Ranking." + self.fn[m].name] = hook      # same routine under today's name
+            funcs["Ranking._Ranking" + self.fn[m].name] = hook
         return funcs
 
     def step(self, mode: str, vec: List[int], elem: int, draw: int):
@@ -261,6 +266,8 @@ def _check_conversion(res: Result, proj: Project, sim: StepSim):
             funcs["Ranking." + role] = hook
             funcs["Ranking._Ranking" + role] = hook
             funcs[sim.fn[role].name] = hook             # module-level form after a move out of the class
+            funcs["Ranking." + sim.fn[role].name] = hook
+            funcs["Ranking._Ranking" + sim.fn[role].name] = hook
         funcs["Ranking"] = lambda ev, call: ("Ranking", ev.ev(call.args[0]))
         funcs["Element"] = lambda ev, call: ev.ev(call.args[0])
         evl = Evaluator({}, funcs)
